@@ -18,7 +18,7 @@ def match_known(f, known):
     return None
 
 
-def run(pid, tier):
+def run(pid, tier, k3_programs=None):
     res = C.Result(pid, tier)
     known = [k for k in C.load_known().get("findings", []) if pid in k.get("properties", [k.get("property")])]
     with C.Lock():
@@ -58,6 +58,19 @@ def run(pid, tier):
         "findings_total": len(out["findings"]),
         "known_findings_matched": sorted(seen),
     })
+    if k3_programs:
+        import k3
+        import k3check
+        out3 = k3.explore(tier, C.seed(), programs=set(k3_programs), with_traces=False)
+        for b in out3["build_errors"]:
+            res.add_broken("K3 harness does not compile against /repo (%s)" % b["config"], b["log"])
+        mine3 = [f for f in out3["failures"] if pid in k3check.classify(f["why"])]
+        for f in mine3[:3]:
+            res.add_failing(f)
+        if mine3 and not [b for b in res.broken if "K3" in b["what"]]:
+            res.add_broken("K3 monitor: an explored schedule violates %s" % pid)
+        res.cov["k3_executions"] = out3["executions"]
+        res.cov["k3_failures"] = len(mine3)
     res.assumptions += [
         "theorems cover the model's fault points only (bucket-array allocation beyond hpLimit, policy exceptions, functor throw); all other "
         "fault positions are enumerated on the implementation, not proved",
